@@ -235,7 +235,7 @@ def run(ctx, pid):
         # free-running concurrent executions (not derived from the model), judged by the same observers
         fr = plan.get("free", (1, 6))
         rounds = ctx.pick(fr[0], fr[1])
-        trace, fsumm, out = cachelib.free_run(ctx, cachelib.free_scenarios(), rounds=rounds, race=plan.get("race", ctx.tier == "thorough"),
+        trace, fsumm, out = cachelib.free_run(ctx, cachelib.free_scenarios(ctx.tier), rounds=rounds, race=plan.get("race", ctx.tier == "thorough"),
                                               timeout=ctx.pick(900, 3000))
         with open(trace) as f:
             for ln in f:
@@ -244,7 +244,7 @@ def run(ctx, pid):
                 allf.write(ln)
     total["traces"] += fsumm["traces"]
     total["events"] += fsumm["events"]
-    free_info = {"rounds": rounds, "scenarios": [s["name"] for s in cachelib.free_scenarios()], "traces": fsumm["traces"],
+    free_info = {"rounds": rounds, "scenarios": [s["name"] for s in cachelib.free_scenarios(ctx.tier)], "traces": fsumm["traces"],
                  "events": fsumm["events"], "race_detector": plan.get("race", ctx.tier == "thorough")}
     bad, r = cachelib.observe(ctx, combined, name="observe", modules=OBSERVERS.get(pid, ("ObsCache",)))
     allbad = []
